@@ -284,3 +284,24 @@ Proof.
   exists [FSpawn 0 1 (Ok 42); FAdv 0; FAdv 0; FAdv 0; FRead 0].
   eexists. split; [left; reflexivity|]. vm_compute. split; reflexivity.
 Qed.
+
+(* ---- independent outcome stores: the machine is the one above ---- *)
+Lemma frun2_independent : forall rf ef l w, frun2 rf ef true w l = frun rf ef w l.
+Proof. intros rf ef l. induction l as [|s l IH]; intros w; [reflexivity|]. cbn [frun2 frun fold_left]. apply IH. Qed.
+
+Lemma observations_ok2 : forall ops0 l, fresh_start ops0 ->
+  let w := frun2 true true true (fworld_of ops0) l in Forall (obs_ok (fcompleted w)) (fobs w).
+Proof. intros ops0 l Hf. cbv zeta. rewrite frun2_independent. now apply observations_ok. Qed.
+
+(* a store that deletes the other kind of outcome lets a zombie wipe the outcome of an invocation that is already final *)
+Lemma dependent_stores_refuted :
+  exists l, let w := frun2 true true false (fworld_of [ORegister 0 None; OSet 0 PENDING (Some 1)]) l in
+            exists o, In o (fobs w) /\ ostatus o = Some FAILED /\ oexc o = None.
+Proof.
+  (* worker 0 (runner 1) starts and is slow; recovery re-queues; runner 2 claims, runs, fails and publishes FAILED;
+     the zombie then stores its result, which deletes the exception; its SUCCESS is refused *)
+  exists [FSpawn 0 1 (Ok 42); FAdv 0; FAdv 0;
+          FExt 0 RUNNING_RECOVERY (Some 9); FExt 0 REROUTED (Some 9); FExt 0 PENDING (Some 2);
+          FSpawn 0 2 (Err 7); FAdv 1; FAdv 1; FAdv 1; FAdv 1; FAdv 0; FAdv 0; FRead 0].
+  vm_compute. eexists. split; [left; reflexivity|]. split; reflexivity.
+Qed.
